@@ -183,11 +183,12 @@ def run_case(case):
                 and len(dec["scaffold_sn"]) <= 1):
             # outside the statement (no articulation point / end element without rank-0 segment): not judged
             return core.Result(False, ["excluded:" + dec["shape"]])
+    req = "" if case.get("default_order") else case["order"]  # "" = the option is not given
     with core.workdir() as d:
-        res, files = ordergfa.run_order(d, case["gfa"], case["order"], case["by_chrom"], sub="o1", via=case.get("via", "api"))
+        res, files = ordergfa.run_order(d, case["gfa"], req, case["by_chrom"], sub="o1", via=case.get("via", "api"))
         core.check(res[0] == "ok", "order_gfa failed: %s", res)
         tags = collect_tags(files, case["by_chrom"], order)
-        res2, files2 = ordergfa.run_order(d, case["gfa2"], case["order"], case["by_chrom"], sub="o2", via=case.get("via", "api"))
+        res2, files2 = ordergfa.run_order(d, case["gfa2"], req, case["by_chrom"], sub="o2", via=case.get("via", "api"))
         core.check(res2[0] == "ok", "order_gfa failed on the permuted file with stale tags: %s", res2)
         tags2 = collect_tags(files2, case["by_chrom"], order)
     want_nodes = set()
@@ -210,10 +211,55 @@ def run_case(case):
     classes.add("via:" + case.get("via", "api"))
     if case.get("real_window"):
         classes.add("real_graph_window")
+    if case.get("default_order"):
+        classes.add("default_chromosome_order")
     return core.Result(nontrivial, sorted(classes))
 
 
+DEFAULT_ORDER = ["chr%d" % i for i in range(1, 23)] + ["chrX", "chrY", "chrM"]
+
+
+def default_order_cases():
+    """Graphs with exactly the 25 default chromosomes, run WITHOUT --chromosome_order (documented default:
+    chr1,...,chr22,chrX,chrY,chrM), S lines of the chromosomes in a shuffled order."""
+    import random
+
+    for seed in (3, 4):
+        rnd = random.Random(seed)
+        lines, lines2 = [], []
+        nid = 0
+        for c in rnd.sample(DEFAULT_ORDER, len(DEFAULT_ORDER)):
+            k = rnd.choice([1, 1, 5, 7])
+            pos = 0
+            ids = []
+            for j in range(k):
+                nid += 1
+                n = "s%d" % nid
+                ln = rnd.randint(2, 9)
+                ids.append(n)
+                lines.append("S\t%s\t*\tLN:i:%d\tSN:Z:%s\tSO:i:%d\tSR:i:0" % (n, ln, c, pos))
+                pos += ln
+            if k >= 5:
+                # r0 - r1 =(bubble)= r3 - r4 ...: one alternative allele over the third segment
+                nid += 1
+                h = "s%d" % nid
+                lines.append("S\t%s\t*\tLN:i:4\tSN:Z:HG01#1#%s_alt\tSO:i:0\tSR:i:1" % (h, c))
+                for a, b in zip(ids, ids[1:]):
+                    lines.append("L\t%s\t+\t%s\t+\t0M" % (a, b))
+                lines.append("L\t%s\t+\t%s\t+\t0M" % (ids[1], h))
+                lines.append("L\t%s\t+\t%s\t+\t0M" % (h, ids[3]))
+        lines2 = list(lines)
+        rnd.shuffle(lines2)
+        for by in (False, True):
+            for via in ("api", "cli"):
+                yield {"gfa": "\n".join(lines) + "\n", "gfa2": "\n".join(lines2) + "\n", "order": ",".join(DEFAULT_ORDER),
+                       "by_chrom": by, "via": via, "default_order": True}
+
+
 def enumerations(tier, shard, nshards):
+    if shard == 0:
+        yield ("default chromosome order: 25 chromosomes, --chromosome_order omitted, two renderings x by_chrom x api/cli",
+               default_order_cases(), True)
     if tier != "thorough" or shard != 0:
         return
 
